@@ -131,7 +131,7 @@ func mainRuntime() []byte {
 	// selector = calldataload(0) >> 248
 	a.push(0).op(opCALLDATALOAD).push(248).op(opSHR)
 	sels := []string{"receive", "store", "load", "forward", "revertdata", "invalid", "loop", "destruct", "create", "callmayberevert",
-		"trycall", "balances", "static", "delegate", "ecrecover", "create2", "clear", "destructself", "multicall", "rawcall", "nest"}
+		"trycall", "balances", "static", "delegate", "ecrecover", "create2", "clear", "destructself", "multicall", "rawcall", "nest", "blockhash"}
 	for i, s := range sels {
 		a.op(opDUP1).push(uint64(i)).op(opEQ).pushLabel(s).op(opJUMPI)
 	}
@@ -327,6 +327,13 @@ func mainRuntime() []byte {
 	argB()
 	a.pushLabel("dorevert").op(opJUMPI)
 	a.op(opSTOP)
+
+	// blockhash: return BLOCKHASH(NUMBER - A); no state is touched (what the opcode answers is not fixed by the
+	// properties, but it must be the same on every replica and after a restart)
+	a.label("blockhash")
+	argA()
+	a.op(0x43).op(opSUB).op(0x40) // NUMBER, SUB, BLOCKHASH
+	a.push(0).op(opMSTORE).push(32).push(0).op(opRETURN)
 	return a.bytes()
 }
 
@@ -533,6 +540,8 @@ func (g *Gen) draftEVM(kind string, h int64, sh *MState, P *DParams, price *big.
 			nest("nest-balances-then-ok", x, 11, third(), 0, new(big.Int)),
 			nest("nest-forward-then-ok", x, 3, third(), 0, val()),
 			nest("nest-nest-then-revert", x, 20, third(), 1, new(big.Int)),
+			cs{"blockhash", callData(21, wordU(uint64(1+g.rng.Intn(12))), nil, nil), new(big.Int), false},
+			cs{"blockhash", callData(21, wordU(uint64(1+g.rng.Intn(4))), nil, nil), new(big.Int), false},
 		)
 		ch := cands[g.rng.Intn(len(cands))]
 		d := mk(rctypes.TRX_CONTRACT, k, to, ch.value, &rctypes.TrxPayloadContract{Data: ch.data}, "call:"+ch.name)
